@@ -93,7 +93,7 @@ pub struct ParseCase {
 }
 
 fn strategy_parse(_t: Tier) -> BoxedStrategy<ParseCase> {
-    arb_fam_n(0, 12)
+    arb_fam_n(0, 13)
         .prop_flat_map(|(fam, n)| arb_hex_input(n).prop_map(move |s| ParseCase { fam, n, s }))
         .boxed()
 }
